@@ -398,4 +398,11 @@ def isolatedTermConstant (h : List Ev) : Option String :=
           if mx > tm0 + 1 then some s!"isolated-server-{srv}-raised-its-term-from-{tm0}-to-{mx}" else none
     | _ => none)
 
+/-! ## C10 / C11 — a server always restarts from what it durably holds -/
+
+def restartable (h : List Ev) : Option String :=
+  h.findSome? (fun e => match e with
+    | .dead srv life => some s!"server-{srv}-could-not-restart-from-its-durable-state-(life-{life})"
+    | _ => none)
+
 end CL
